@@ -3,7 +3,115 @@
   Python operators (`Acra.Py.IntOps`) into the arithmetic form the hand-written models use.
 -/
 import Acra.Py.IntOps
+import Acra.Model.PES
+import Acra.Model.Ch11
 namespace Acra.Lemmas.SrcTie
 open Acra Acra.Py
+
+/-- `x & m` for a low mask `m = 2^j - 1` is `x % 2^j` -/
+theorem and_low (x m j : Nat) (h : m + 1 = 2 ^ j) : x &&& m = x % 2 ^ j := by
+  have : m = 2 ^ j - 1 := by omega
+  rw [this, Nat.and_two_pow_sub_one_eq_mod]
+
+/-- `x & (m << k)` for a low mask `m = 2^j - 1`: the `j`-bit field of `x` at position `k`, left in place -/
+theorem and_field (x m j k mk : Nat) (h : m + 1 = 2 ^ j) (hmk : mk = m * 2 ^ k) :
+    x &&& mk = (x / 2 ^ k % 2 ^ j) * 2 ^ k := by
+  have hm : m = 2 ^ j - 1 := by omega
+  subst hmk
+  apply Nat.eq_of_testBit_eq
+  intro i
+  rw [Nat.testBit_and, Nat.testBit_mul_two_pow, Nat.testBit_mul_two_pow, Nat.testBit_mod_two_pow,
+    Nat.testBit_div_two_pow, hm, Nat.testBit_two_pow_sub_one]
+  by_cases hk : k ≤ i
+  · have : i - k + k = i := by omega
+    simp [hk, this, Bool.and_comm]
+  · simp [hk]
+
+/-- or-ing a `w`-bit field `a` at position `k` into a value whose bits `k … k+w-1` are zero adds it -/
+theorem or_field (t a k w : Nat) (ht : t / 2 ^ k % 2 ^ w = 0) (ha : a < 2 ^ w) :
+    t ||| a * 2 ^ k = t + a * 2 ^ k := by
+  have hr : t % 2 ^ k < 2 ^ k := Nat.mod_lt _ (Nat.two_pow_pos k)
+  have hq : (t / 2 ^ k) = (t / 2 ^ k / 2 ^ w) <<< w := by
+    rw [Nat.shiftLeft_eq]
+    have := Nat.div_add_mod (t / 2 ^ k) (2 ^ w)
+    rw [ht, Nat.add_zero, Nat.mul_comm] at this
+    exact this.symm
+  have h1 : (t / 2 ^ k) ||| a = t / 2 ^ k + a := by
+    rw [hq]; exact (Nat.shiftLeft_add_eq_or_of_lt ha _).symm
+  have ht' : t = (t / 2 ^ k) <<< k ||| t % 2 ^ k := by
+    rw [← Nat.shiftLeft_add_eq_or_of_lt hr, Nat.shiftLeft_eq, Nat.mul_comm]
+    exact (Nat.div_add_mod t (2 ^ k)).symm
+  calc t ||| a * 2 ^ k
+      = ((t / 2 ^ k) <<< k ||| t % 2 ^ k) ||| a <<< k := by rw [← ht', Nat.shiftLeft_eq]
+    _ = ((t / 2 ^ k) <<< k ||| a <<< k) ||| t % 2 ^ k := by
+        rw [Nat.or_assoc, Nat.or_comm (t % 2 ^ k), ← Nat.or_assoc]
+    _ = ((t / 2 ^ k + a) <<< k) ||| t % 2 ^ k := by rw [← Nat.shiftLeft_or_distrib, h1]
+    _ = (t / 2 ^ k + a) <<< k + t % 2 ^ k := (Nat.shiftLeft_add_eq_or_of_lt hr _).symm
+    _ = t + a * 2 ^ k := by
+        rw [Nat.shiftLeft_eq, Nat.add_mul]
+        have := Nat.div_add_mod t (2 ^ k)
+        rw [Nat.mul_comm] at this
+        omega
+
+/-- `struct.unpack` returns as many values as the format has codes -/
+theorem structUnpack_vals_length (f : Fmt) (buf : Bytes) (vs : List Nat) (h : structUnpack f buf = .ok vs) :
+    vs.length = f.codes.length := by
+  unfold structUnpack at h
+  split at h
+  · injection h with h; subst h; exact unpackCodes_length _ _ _
+  · cases h
+
+/-! ### index loops: `for i in range(len(b)): … b[i] …` -/
+
+theorem range_eq (n : Nat) : Py.range (n : Int) = (List.range' 0 n).map Int.ofNat := by
+  simp [Py.range, List.range_eq_range']
+
+theorem byteAt_append (pre : Bytes) (b : UInt8) (bs : Bytes) :
+    byteAt (pre ++ b :: bs) (Int.ofNat pre.length) = (b.toNat : Int) := by
+  simp [byteAt]
+
+/-- the loop of `checksum_stanag` started at position `|pre|` with accumulator `acc` -/
+theorem stanag_fold (pre rest : Bytes) (acc : Int) :
+    List.foldl (fun (bcc : Int) (i : Int) => bcc + shl (byteAt (pre ++ rest) i) (8 * pymod (i + 1) 2)) acc
+      ((List.range' pre.length rest.length).map Int.ofNat)
+    = acc + (Model.PES.stanagSum rest pre.length : Int) := by
+  induction rest generalizing pre acc with
+  | nil => simp [Model.PES.stanagSum]
+  | cons b bs ih =>
+    simp only [List.length_cons, List.range'_succ, List.map_cons, List.foldl_cons, byteAt_append]
+    have h := ih (pre ++ [b]) (acc + shl (b.toNat : Int) (8 * pymod (Int.ofNat pre.length + 1) 2))
+    simp only [List.append_assoc, List.singleton_append, List.length_append, List.length_singleton] at h
+    rw [h]
+    simp only [Model.PES.stanagSum]
+    have hm : pymod (Int.ofNat pre.length + 1) 2 = (((pre.length + 1) % 2 : Nat) : Int) := by
+      rw [pymod_of_pos _ _ (by decide)]; simp
+    rw [hm]
+    rcases Nat.mod_two_eq_zero_or_one (pre.length + 1) with h0 | h1
+    · rw [h0]; simp [shl_natCast, Nat.shiftLeft_eq]; omega
+    · rw [h1]; simp [shl_natCast, Nat.shiftLeft_eq]; omega
+
+/-! ### `reduce(lambda x, y: x + y, words)` -/
+
+theorem foldl_add_natCast (xs : List Nat) (x : Nat) :
+    (xs.map Int.ofNat).foldl (fun (x y : Int) => x + y) (x : Int) = ((x + Model.Ch11.sumList xs : Nat) : Int) := by
+  induction xs generalizing x with
+  | nil => simp [Model.Ch11.sumList]
+  | cons y ys ih =>
+    simp only [List.map_cons, List.foldl_cons, Model.Ch11.sumList]
+    have : (x : Int) + Int.ofNat y = ((x + y : Nat) : Int) := by simp
+    rw [this, ih]; congr 1; omega
+
+theorem reduce_add_natCast (ws : List Nat) :
+    Py.reduce (fun (x y : Int) => x + y) (ws.map Int.ofNat)
+      = match ws with
+        | [] => .error .type
+        | _ :: _ => .ok ((Model.Ch11.sumList ws : Nat) : Int) := by
+  cases ws with
+  | nil => rfl
+  | cons x xs =>
+    simp only [List.map_cons, Py.reduce]
+    have := foldl_add_natCast xs x
+    simp only [Model.Ch11.sumList]
+    rw [← this]; rfl
 
 end Acra.Lemmas.SrcTie
